@@ -90,7 +90,8 @@ def _operator(cfg, B):
             rhs.bcL = {'type': 'dirichlet', 'prim': prm}
             rhs.bcR = {'type': 'dirichlet', 'prim': list(prm)}
     R = rhs.rhs(d['field'])
-    vol = mesh.vol()
+    # geometric cell sizes from the faces (not mesh.vol(): a stale or wrong metric inside the library must not cancel out)
+    vol = [mesh.xf[i + 1] - mesh.xf[i] for i in range(n)]
     neq = model.neq
     F = rhs.flux
     names = {'convection': ['q'], 'burgers': ['u'], 'shallowwater': ['height', 'discharge'],
